@@ -26,6 +26,41 @@ func elemTypeName(t types.Type) string {
 	return types.TypeString(t, func(p *types.Package) string { return "" })
 }
 
+// sectionMarkOf: does the call record the current file position as the begin or the end of a section — through the
+// helpers setSectionBegin / setSectionEnd, or by handing &….Sections[S].Begin / .End to a function (the helpers inlined)?
+// Returns "begin" / "end" and the section expression S.
+func sectionMarkOf(p *Prog, owner *Fn, c *ast.CallExpr) (string, ast.Expr) {
+	if fn := p.Callee(owner.Pkg, c); fn != nil && len(c.Args) == 1 {
+		switch fn.Name() {
+		case "setSectionBegin":
+			return "begin", c.Args[0]
+		case "setSectionEnd":
+			return "end", c.Args[0]
+		}
+	}
+	for _, a := range c.Args {
+		u, ok := ast.Unparen(a).(*ast.UnaryExpr)
+		if !ok || u.Op.String() != "&" {
+			continue
+		}
+		se, ok := ast.Unparen(u.X).(*ast.SelectorExpr)
+		if !ok || (se.Sel.Name != "Begin" && se.Sel.Name != "End") {
+			continue
+		}
+		ix, ok := ast.Unparen(se.X).(*ast.IndexExpr)
+		if !ok {
+			continue
+		}
+		if base, ok := ast.Unparen(ix.X).(*ast.SelectorExpr); ok && base.Sel.Name == "Sections" {
+			if se.Sel.Name == "Begin" {
+				return "begin", ix.Index
+			}
+			return "end", ix.Index
+		}
+	}
+	return "", nil
+}
+
 func ruleC01Sections(p *Prog, r *Res) {
 	const ruleB = "C01-b section-agreement"
 	r.Rule(ruleB + ": every section is written once, in begin/body/end order, with the record type the reader decodes")
@@ -82,8 +117,10 @@ func ruleC01Sections(p *Prog, r *Res) {
 			return false
 		}
 		for _, c := range callsIn(h.Body()) {
-			if fn := p.Callee(h.Pkg, c); fn != nil && fn.Name() == "setSectionBegin" && firstParamPassed(h, c) {
-				return true
+			if kind, sec := sectionMarkOf(p, h, c); kind == "begin" {
+				if po := paramObj(h, 0); po != nil && sameObj(h.Pkg.TypesInfo, sec, po) {
+					return true
+				}
 			}
 		}
 		return false
@@ -147,12 +184,12 @@ func ruleC01Sections(p *Prog, r *Res) {
 	for _, fk := range []string{"index.NewWriter", "index.Writer.Finalize"} {
 		if f := p.Fn(fk); f != nil {
 			for _, c := range callsIn(f.Body()) {
-				if fn := p.Callee(f.Pkg, c); fn != nil && len(c.Args) == 1 {
-					if tv, ok := f.Pkg.TypesInfo.Types[c.Args[0]]; ok && tv.Value != nil && tv.Value.ExactString() == consts["sectionData"].ExactString() && types.Identical(types.Unalias(tv.Type), sect) {
-						if fn.Name() == "setSectionBegin" {
+				if kind, sec := sectionMarkOf(p, f, c); kind != "" {
+					if tv, ok := f.Pkg.TypesInfo.Types[sec]; ok && tv.Value != nil && tv.Value.ExactString() == consts["sectionData"].ExactString() && types.Identical(types.Unalias(tv.Type), sect) {
+						if kind == "begin" {
 							dataBegin++
 						}
-						if fn.Name() == "setSectionEnd" {
+						if kind == "end" {
 							dataEnd++
 						}
 					}
@@ -188,6 +225,9 @@ func ruleC01Sections(p *Prog, r *Res) {
 		step := func(name string) func(ast.Node) bool {
 			return func(n ast.Node) bool {
 				return fl.hasCall(n, func(c *ast.CallExpr) bool {
+					if kind, _ := sectionMarkOf(p, l, c); (kind == "begin" && name == "setSectionBegin") || (kind == "end" && name == "setSectionEnd") {
+						return true
+					}
 					if fn := p.Callee(l.Pkg, c); fn != nil && fn.Name() == name {
 						return true
 					}
